@@ -369,6 +369,11 @@ example : isDone (getAsync (exCfg 1) exP [0, 0, 0]) = true ∧ (getAsync (exCfg 
 example : isDone (getAsync (exCfg 1) exP [1, 0, 0]) = true ∧ (getAsync (exCfg 1) exP [1, 0, 0]).final.cache.get? 3 = some 614 := by
   decide
 example : den (exCfg 1) exP id 3 = 614 := by decide
+/-- a caller-supplied cache (`cache={1: 107}`, the value key 1 denotes): task 1 is not run again, the result is the same -/
+example : isDone (getAsyncC (exCfg 1) exP [(1, 107)] [0, 0]) = true ∧
+    (getAsyncC (exCfg 1) exP [(1, 107)] [0, 0]).final.cache.get? 3 = some 614 ∧
+    (getAsyncC (exCfg 1) exP [(1, 107)] [0, 0]).log.filterMap (fun e => match e.1 with | .pretask k => some k | _ => none) = [2, 3] := by
+  decide
 /-- `chunksize = -1` (the repaired branch; the second `fire_tasks` sees `ready = []` while a task is running) -/
 example : isDone (getAsync (exCfg (-1)) exP [0, 0, 0]) = true := by decide
 end Example
